@@ -417,7 +417,8 @@ def body_from_reflection(case, ctx):
 # ---------------------------------------------------------------------------
 # law 3
 NONREFL = ["rotation", "loxodromic", "two_reflections", "rotoreflection", "glide",
-           "point_reflection", "half_turn", "identity", "point_reflection_negated"]
+           "point_reflection", "half_turn", "identity", "point_reflection_negated",
+           "triple_inversion", "triple_inversion"]
 
 
 @st.composite
@@ -440,7 +441,7 @@ def nonrefl_unit(draw, n, kind):
 @st.composite
 def nonrefl_case(draw):
     n = draw(st.sampled_from([2, 3, 4]))
-    kinds = [k for k in NONREFL if not (k == "rotoreflection" and n < 3)]
+    kinds = [k for k in NONREFL if not (k in ("rotoreflection", "triple_inversion") and n < 3)]
     shape = draw(st.sampled_from([[], [], [], [2]]))
     units = [draw(nonrefl_unit(n, draw(st.sampled_from(kinds))))
              for _ in range(gen.prod(shape))]
@@ -477,6 +478,12 @@ def nonrefl_matrix(n, u):
         return np.array(Isometry.elliptic(n, D).matrix).T
     if k == "identity":
         return np.eye(n + 1)
+    if k == "triple_inversion":
+        # an orientation-reversing involution that is not a reflection: three coordinates
+        # negated (the inversion in a point of H^3, in a geodesic of H^4)
+        D = np.eye(n)
+        D[0, 0] = D[1, 1] = D[2, 2] = -1.0
+        return np.array(Isometry.elliptic(n, D).matrix).T
     if k == "point_reflection_negated":
         # the same projective map as the point reflection, given by the representative
         # diag(-1, 1, .., 1): an involution with the spectrum of a reflection, whose
